@@ -776,6 +776,13 @@ class SymExec:
                 sel = "then"
             elif cond == self.FALSE:
                 sel = "else"
+            elif not cond.is_const():
+                # the same (symbolic) condition was decided earlier on this path: `let last = ..; if last {..} .. if last {..}`
+                fs = self.path_facts()
+                if (cond, True) in fs and (cond, False) not in fs:
+                    sel = "then"
+                elif (cond, False) in fs and (cond, True) not in fs:
+                    sel = "else"
         self.log("if", node=e, cond=cond, sel=sel)
         if sel == "then":
             self.pc.append((e, "then", cond))
@@ -823,6 +830,22 @@ class SymExec:
                 want2 = self.FALSE if t_ else self.TRUE
                 if s1.get(k_) == want1 and s2.get(k_) == want2 and k_ in base:
                     self.st[k_] = base[k_]
+        if s1 is not None and s2 is not None and ckey is not None and self.cond_phis.get(ckey):
+            # what neither branch touched is, after the join, what it was before the test: the substitution of earlier
+            # joins on the same condition (made on entering each branch) is undone
+            known_ = self.cond_phis.get(ckey)
+            sub_t = {P: (pt if cpol else pe) for P, pt, pe in known_}
+            sub_e = {P: (pe if cpol else pt) for P, pt, pe in known_}
+            for k_, bv in base.items():
+                if k_ == FACTS or not isinstance(bv, (Poly, Buf)):
+                    continue
+                a_, b_ = s1.get(k_), s2.get(k_)
+                if a_ is None or b_ is None or type(a_) is not type(bv) or type(b_) is not type(bv):
+                    continue
+                if (a_ != bv or b_ != bv) and a_ == self._subst_val(bv, sub_t) and b_ == self._subst_val(bv, sub_e):
+                    self.st[k_] = bv
+                    s1[k_] = bv
+                    s2[k_] = bv
         if s1 is not None and s2 is not None:
             created = {}
             for k, v in self.st.items():
@@ -872,6 +895,7 @@ class SymExec:
             pa = res.single_atom() if isinstance(res, Poly) else None
             if pa and pa in DEFS and DEFS[pa][0] == "phi":
                 self.cond_phis.setdefault(ckey, []).append((pa, vt, ve))
+                self.log("ifexpr_phi", node=e, cond=cond, atom=pa, v_then=v1, v_else=v2)
             return res
         return self.join_val(v1, v2, "if") if not (isinstance(v1, Poly) and v1 == v2) else v1
 
@@ -891,6 +915,18 @@ class SymExec:
             return a, pol
         return None, True
 
+    @staticmethod
+    def _subst_val(v, sub):
+        keys = set(sub)
+        if isinstance(v, Poly):
+            return v.subst(sub) if (v.atoms() & keys) else v
+        if isinstance(v, Buf):
+            if any(isinstance(b_, Poly) and (b_.atoms() & keys) for b_ in list(v.blocks.values()) + [v.base]):
+                nb = {i_: (b_.subst(sub) if isinstance(b_, Poly) and (b_.atoms() & keys) else b_) for i_, b_ in v.blocks.items()}
+                base = v.base.subst(sub) if isinstance(v.base, Poly) and (v.base.atoms() & keys) else v.base
+                return Buf(v.name, nb, v.len, v.unit, base)
+        return v
+
     def _apply_cond_phis(self, ckey, truth):
         """entering a branch of a test on a condition that was tested (and joined) before: the phis created by that join
         have the value of the corresponding branch here"""
@@ -900,9 +936,15 @@ class SymExec:
         if not known:
             return
         sub = {P: (pt if truth else pe) for P, pt, pe in known}
+        keys = set(sub)
         for k, v in list(self.st.items()):
-            if isinstance(v, Poly) and (v.atoms() & set(sub)):
+            if isinstance(v, Poly) and (v.atoms() & keys):
                 self.st[k] = v.subst(sub)
+            elif isinstance(v, Buf) and any(isinstance(b_, Poly) and (b_.atoms() & keys) for b_ in list(v.blocks.values()) + [v.base]):
+                nb = {i_: (b_.subst(sub) if isinstance(b_, Poly) and (b_.atoms() & keys) else b_) for i_, b_ in v.blocks.items()}
+                base = v.base.subst(sub) if isinstance(v.base, Poly) and (v.base.atoms() & keys) else v.base
+                self.st[k] = Buf(v.name, nb, v.len, v.unit, base)
+        self.log("cond_refine", sub=dict(sub))
 
     def _bool_match_as_if(self, e):
         """`match b { true => A, false => B }` (or with a wildcard for one side) is an if-expression on b"""
@@ -934,6 +976,15 @@ class SymExec:
         as_if = self._bool_match_as_if(e)
         if as_if is not None:
             return self.e_If(as_if)
+        if e.get("src") == "TryDesugar" and e["scrut"].get("k") == "Call" and (e["scrut"].get("def") or "").endswith("Try::branch") and len(e["scrut"].get("args", [])) == 1:
+            # `x?`: the value is the payload of x; the other way out is an early return carrying the residual
+            inner = self.eval(e["scrut"]["args"][0])
+            if self.st is None:
+                return Poly.atom("never")
+            res = opaque("residual", [self._p(inner)])
+            self.exits.append(("return", None, dict(self.st), res))
+            self.log("return", node=e, value=res, state=dict(self.st), pc=list(self.pc), via="?")
+            return opaque("unwrap", [self._p(inner)])
         scrut = self.eval(e["scrut"])
         if self.st is None:
             return Poly.atom("never")
@@ -955,9 +1006,16 @@ class SymExec:
                 self.bind_pat(a["pat"], scrut)
             else:
                 self.bind_pat(a["pat"], opaque("armval", [self._p(scrut), Poly.const(j)]))
+            n_pc = len(self.pc)
             if a.get("guard") is not None:
-                self.eval(a["guard"])
+                g = self.eval(a["guard"])
+                if isinstance(g, Poly) and self.st is not None:
+                    # inside the arm the guard holds: it is a path condition like the test of an `if`
+                    gnode = {"k": "If", "cond": a["guard"], "then": a["body"], "else": None, "sp": a["guard"].get("sp"), "src": "MatchGuard"}
+                    self.pc.append((gnode, "then", g))
+                    self.add_fact(g, True)
             v = self.eval(a["body"])
+            del self.pc[n_pc:]
             if self.st is not None:
                 outs.append(self.st)
                 vals.append(v)
@@ -1600,7 +1658,7 @@ class SymExec:
     # ---- calls
     # crate-local helpers that rules model themselves (summaries, dedicated analyses); everything else that is private
     # to the crate is interpreted in place, so extracting a few lines into a helper does not change what a rule sees
-    OPAQUE_HELPERS = ("methods::bdf::", "matrix::", "<matrix::", "dense::", "<dense::", "methods::hinit", "methods::Tolerance", "<methods::Tolerance")
+    OPAQUE_HELPERS = ("methods::bdf::weighted_rms_scaled", "methods::bdf::change_d", "methods::bdf::compute_r", "methods::bdf::matmul", "matrix::", "<matrix::", "dense::", "<dense::", "methods::hinit", "methods::Tolerance", "<methods::Tolerance")
 
     def inline_ok(self, d, rec):
         if not str(rec.get("vis", "")).startswith("Restricted"):
